@@ -232,6 +232,22 @@ func c18Inputs(c *Ctx, nMut int) []c18Case {
 	for _, s := range typeSeeds {
 		cases = append(cases, c18Case{"type", s})
 	}
+	// collections in front of statements that do not take them: an error message (or a recovery path) that renders a
+	// collection it has put into a map or set depends on iteration order, which only repetition can show; the corpus
+	// uses single-key hints only
+	for _, h := range []string{"@{a=1, b=2, c=3, d=4} ", "@{x=1, y=2} ", "@{b=1, a=2, b=3} "} {
+		for _, cc := range c.Corpus() {
+			if cc.Dir != "expr" && !cc.Bad && len(cc.Text) < 300 {
+				cases = append(cases, c18Case{"statement", h + cc.Text})
+				if cc.Dir == "ddl" {
+					cases = append(cases, c18Case{"ddl", h + cc.Text})
+				}
+			}
+		}
+		for _, s := range c11Sensitive {
+			cases = append(cases, c18Case{"statements", h + s + ";\n" + h + s})
+		}
+	}
 	for _, s := range poisonInputs {
 		cases = append(cases, c18Case{"split", s}, c18Case{"statements", s}, c18Case{"expr", s})
 	}
